@@ -588,3 +588,13 @@ Lemma handler_thread_total cap lower c r a disc :
   handler_thread cap lower c r a disc
   = (channel_service cap lower c r a disc, o_escaped (channel_service cap lower c r a disc)).
 Proof. reflexivity. Qed.
+
+(* will_close: a connection already marked for closing is not executed *)
+Lemma will_close_not_executed c r a disc :
+  let res := run_task_wc c r a disc true in
+  o_iter res = false /\ o_writes res = [] /\ o_close res = true /\ o_next res = false
+  /\ o_escaped res = None /\ o_closes res = 0%nat /\ o_raw res = None.
+Proof. cbn. repeat split; reflexivity. Qed.
+
+Lemma will_close_false c r a disc : run_task_wc c r a disc false = run_task c r a disc.
+Proof. reflexivity. Qed.
